@@ -149,6 +149,84 @@ def parity_of_facts(facts, n):
 
 def check_multiply_schema(world, f, order=None, self_names=(), double_q=None, add_q=None, summaries=None, neg_ok=False,
                           adder_check=None):
+    """the ladder schema; when the routine is outside it (windowed, table-driven, … : undecided), the two-point helpers it
+    reaches are still held to the group law (restricted_adders) — a chord-only adder inside a scalar multiplication is a
+    violation whatever the ladder looks like"""
+    try:
+        return _check_multiply_schema(world, f, order, self_names, double_q, add_q, summaries, neg_ok, adder_check)
+    except AnalysisError as e:
+        if adder_check is None:
+            raise
+        bad = restricted_adders(world, f, add_q, double_q, adder_check)
+        if not bad:
+            raise
+        return [(f"{q} is point addition on generic operands only, and the scalar multiplication applies it without "
+                 f"the equal / opposite / identity dispatch (points of small order meet those cases)", False,
+                 f"{det}; the ladder itself is outside the schema ({str(e)[:120]})") for q, det in bad], 0
+
+
+def restricted_adders(world, f, add_q, double_q, adder_check):
+    """functions of the same module reached from f (by resolved names) that take two points, agree with the chord rule on
+    generic operands and fail another stratum of the group law -> [(qualname, detail)]"""
+    import ast as _ast
+    repo = world.repo
+    mod = f.module
+    seen, stack, out = set(), [f], []
+    while stack:
+        g = stack.pop()
+        if g.qualname in seen:
+            continue
+        seen.add(g.qualname)
+        for n in _ast.walk(g.node):
+            if isinstance(n, _ast.Call) and isinstance(n.func, _ast.Name):
+                try:
+                    r = repo.resolve_binding(g.module, n.func.id)
+                except AnalysisError:
+                    r = None
+                if r is not None and r[0] == "func" and r[1].module is mod:
+                    stack.append(r[1])
+    known = set()
+    for q in (add_q, double_q):
+        if q:
+            try:
+                known.add(repo.func(q).qualname)
+            except AnalysisError:
+                pass
+    for q in sorted(seen):
+        g = repo.func(q)
+        a = g.node.args
+        if g is f or q in known or len(a.posonlyargs + a.args) != 2 or a.vararg or a.kwonlyargs or a.defaults:
+            continue
+        try:
+            ok, det = adder_check(g, (0, 1), {}, {})
+        except AnalysisError:
+            continue                      # not a function of two points
+        if ok:
+            continue
+        # an adder at all?  the generic stratum must hold, another one fail
+        parts = [d for d in det.split("; ") if d]
+        if any("generic x1≠x2" in d for d in parts):
+            continue
+        okg = _generic_only(adder_check, g)
+        if okg:
+            out.append((q, det[:300]))
+    return out
+
+
+def _generic_only(adder_check, g):
+    """does g agree with the chord rule on two generic finite points?  (asked through the same checker: all failing strata
+    are listed in the detail only up to two, so the generic one is asked for separately)"""
+    probe = getattr(adder_check, "generic", None)
+    if probe is None:
+        return False
+    try:
+        return probe(g)
+    except AnalysisError:
+        return False
+
+
+def _check_multiply_schema(world, f, order=None, self_names=(), double_q=None, add_q=None, summaries=None, neg_ok=False,
+                           adder_check=None):
     """f(pt, n): every path returns n·pt (order None) resp. (n mod order)·pt
     under the induction hypothesis for the recursive calls.
     Returns list of (key, ok, detail)."""
